@@ -149,6 +149,23 @@ func Generate(repo, inject, outDir string, v Variant, stubs map[string]bool) (*R
 		return nil, err
 	}
 
+	// 1b. the hasher seam is a whole-file replacement; a changed tree that has added to that file (new methods, new
+	// helpers) would no longer compile against it. In that case the tree's own file is kept and only the seam is
+	// grafted onto it (an extra field carrying the harness seed, NewHasher sets it, Hash goes through vdet).
+	if dst := filepath.Join(repo, "internal", "xruntime", "hasher.go"); replace[dst] != "" {
+		if merged, ok := mergeHasher(dst); ok {
+			out := filepath.Join(outDir, "src", "internal", "xruntime", "hasher.go")
+			if err := os.MkdirAll(filepath.Dir(out), 0o755); err != nil {
+				return nil, err
+			}
+			if err := os.WriteFile(out, []byte(merged), 0o644); err != nil {
+				return nil, err
+			}
+			replace[dst] = out
+			res.Skipped = append(res.Skipped, "internal/xruntime/hasher.go differs from the pinned shape: seam grafted onto the tree's own file")
+		}
+	}
+
 	// 2. load and rewrite otter's own packages
 	var patterns []string
 	for _, d := range pkgDirs {
@@ -223,6 +240,43 @@ func Generate(repo, inject, outDir string, v Variant, stubs map[string]bool) (*R
 		return nil, err
 	}
 	return res, nil
+}
+
+// mergeHasher returns the tree's hasher.go with the vdet seam grafted on, when that file has more declarations than the
+// pinned one (type Hasher, NewHasher, Hash). ok=false: use the whole-file replacement.
+func mergeHasher(path string) (string, bool) {
+	b, err := os.ReadFile(path)
+	if err != nil {
+		return "", false
+	}
+	src := string(b)
+	if strings.Count(src, "\nfunc ") <= 2 {
+		return "", false
+	}
+	const typ = "type Hasher[T comparable] struct {\n"
+	const lit = "return Hasher[T]{\n"
+	const hashSig = "func (h Hasher[T]) Hash(t T) uint64 {\n"
+	if !strings.Contains(src, typ) || !strings.Contains(src, lit) || !strings.Contains(src, hashSig) {
+		return "", false
+	}
+	src = strings.Replace(src, typ, typ+"\tvseed uint64\n", 1)
+	src = strings.Replace(src, lit, lit+"\t\tvseed: vdet.NextSeed(),\n", 1)
+	i := strings.Index(src, hashSig) + len(hashSig)
+	j := strings.Index(src[i:], "\n}\n")
+	if j < 0 {
+		return "", false
+	}
+	src = src[:i] + "\treturn vdet.Hash(h.vseed, any(t))" + src[i+j:]
+	const imp = "github.com/maypok86/otter/v2/internal/verif/vdet"
+	switch {
+	case strings.Contains(src, "import (\n"):
+		src = strings.Replace(src, "import (\n", "import (\n\t\""+imp+"\"\n", 1)
+	case strings.Contains(src, "import \"hash/maphash\"\n"):
+		src = strings.Replace(src, "import \"hash/maphash\"\n", "import (\n\t\"hash/maphash\"\n\t\""+imp+"\"\n)\n", 1)
+	default:
+		return "", false
+	}
+	return src, true
 }
 
 func rewriteFile(fset *token.FileSet, file *ast.File, info *types.Info, consts map[string]string, found map[string]bool, res *Result) bool {
